@@ -190,3 +190,187 @@ def follow_value(body, local, max_steps=8):
         if not added:
             break
     return cur
+
+
+# ---- guards ---------------------------------------------------------------------------------------
+CMP_OPS = {"Ge", "Gt", "Le", "Lt", "Eq", "Ne"}
+_NEG = {"Ge": "Lt", "Gt": "Le", "Le": "Gt", "Lt": "Ge", "Eq": "Ne", "Ne": "Eq"}
+_SWAP = {"Ge": "Le", "Gt": "Lt", "Le": "Ge", "Lt": "Gt", "Eq": "Eq", "Ne": "Ne"}
+_SYM = {"Ge": ">=", "Gt": ">", "Le": "<=", "Lt": "<", "Eq": "==", "Ne": "!="}
+
+
+def controlling_comparisons(body, bb):
+    """Comparisons block `bb` is control-dependent on: list of dict(op, a, b, taken(bool), switch_bb).
+    A switch on a bool defined by a comparison BinaryOp where exactly one side dominates bb."""
+    out = []
+    for sb, blk in enumerate(body.blocks):
+        t = blk["term"]
+        if not t or t["t"] != "switch" or sb not in body.reachable:
+            continue
+        p = op_place(t["discr"])
+        if p is None or p.get("p"):
+            continue
+        cmp_rv = None
+        for l in flow._local_copies_back(body, p["l"], 6):
+            for bi, si, dpl, src in body.defs.get(l, []):
+                if src[0] == "rv" and src[1]["k"] == "bin" and src[1]["op"] in CMP_OPS:
+                    cmp_rv = src[1]
+        if cmp_rv is None:
+            continue
+        arms = {v: tb for v, tb in t["arms"]}
+        false_t = arms.get("0")
+        true_t = t["otherwise"] if "0" in arms else None
+        if false_t is None:
+            # `switch x [1 => T] else F` form
+            true_t = arms.get("1")
+            false_t = t["otherwise"]
+        if true_t is None or false_t is None or true_t == false_t:
+            continue
+        dt = body.dominates(true_t, bb) and len(body.pred[true_t]) == 1
+        df = body.dominates(false_t, bb) and len(body.pred[false_t]) == 1
+        if dt == df:
+            continue
+        out.append({"op": cmp_rv["op"], "a": cmp_rv["a"], "b": cmp_rv["b"], "taken": dt, "switch_bb": sb})
+    return out
+
+
+def normalise_guard(cmp, limit_is_a):
+    """returns relation string `size REL limit` that holds on the analysed branch"""
+    op = cmp["op"]
+    if not cmp["taken"]:
+        op = _NEG[op]
+    # op is now: a OP b holds
+    if limit_is_a:
+        op = _SWAP[op]  # size is b: b SWAP(OP) a
+    return _SYM[op]
+
+
+def sum_atoms(body, tracer, operand, depth=0):
+    """expand nested additions into atoms: ('const', n) | ('len', description) | ('other', description)"""
+    atoms = []
+    leaves = tracer.origins(body, operand)
+    for lf in leaves:
+        if lf.kind == "arith" and lf.detail["op"] in ("Add", "AddWithOverflow", "AddUnchecked") and depth < 6:
+            wb = tracer.F.bodies[lf.where]
+            atoms += sum_atoms(wb, tracer, lf.detail["a"], depth + 1)
+            atoms += sum_atoms(wb, tracer, lf.detail["b"], depth + 1)
+        elif lf.kind == "const" and "int" in lf.detail:
+            atoms.append(("const", int(lf.detail["int"])))
+        elif lf.kind == "call" and re.search(r"::len$", lf.detail["callee"] or ""):
+            wb = tracer.F.bodies[lf.where]
+            sub = tracer.origins(wb, lf.detail["args"][0])
+            desc = []
+            for s in sub:
+                if s.kind == "field":
+                    desc.append("field:" + s.detail["fields"][-1][1])
+                elif s.kind == "param":
+                    desc.append("param:" + str(s.detail.get("name")))
+                elif s.kind == "call":
+                    # e.g. RawValue::get(&response.json)
+                    wb2 = tracer.F.bodies[s.where]
+                    sub2 = tracer.origins(wb2, s.detail["args"][0]) if s.detail["args"] else []
+                    for s2 in sub2:
+                        if s2.kind == "field":
+                            desc.append("field:" + s2.detail["fields"][-1][1])
+                        elif s2.kind == "param":
+                            desc.append("param:" + str(s2.detail.get("name")))
+                        else:
+                            desc.append(s2.kind)
+                else:
+                    desc.append(s.kind)
+            atoms.append(("len", "|".join(sorted(set(desc)))))
+        elif lf.kind == "len":
+            wb = tracer.F.bodies[lf.where]
+            sub = tracer.origins(wb, lf.detail["of"])
+            desc = sorted({("param:" + str(s.detail.get("name"))) if s.kind == "param" else ("field:" + s.detail["fields"][-1][1] if s.kind == "field" else s.kind) for s in sub})
+            atoms.append(("len", "|".join(desc)))
+        else:
+            atoms.append(("other", flow.leaf_str(lf)))
+    return atoms
+
+
+# ---- MethodCallback slots ---------------------------------------------------------------------------
+def callback_invocations(body):
+    """`(callback)(..)` on a boxed/arc'd dyn Fn: list of dict(call, variant, tuple_ops)
+    variant = MethodCallback variant the callee value was extracted from (or None)."""
+    out = []
+    for c in body.calls:
+        if c.callee not in ("std::ops::Fn::call", "std::ops::FnMut::call_mut", "std::ops::FnOnce::call_once"):
+            continue
+        if not (c.self_ty or "").startswith("dyn "):
+            continue
+        variant = _receiver_variant(body, c.args[0])
+        ops = None
+        p = op_place(c.args[1]) if len(c.args) > 1 else None
+        if p is not None:
+            for bi, si, dpl, src in body.defs.get(p["l"], []):
+                if src[0] == "rv" and src[1]["k"] == "agg" and src[1]["ak"] == "tuple":
+                    ops = src[1]["ops"]
+        out.append({"call": c, "variant": variant, "ops": ops})
+    return out
+
+
+def _receiver_variant(body, op, depth=8):
+    """follow refs/derefs/Deref::deref back to a place with a Downcast; returns (owner, variant) or None"""
+    p = op_place(op)
+    seen = set()
+    while p is not None and depth > 0:
+        depth -= 1
+        for e in p.get("p", []):
+            if isinstance(e, dict) and "d" in e:
+                # owner is recorded on the following field elem
+                owner = None
+                for e2 in p.get("p", []):
+                    if isinstance(e2, dict) and "f" in e2 and e2.get("o"):
+                        owner = e2["o"]
+                return (owner, e["d"])
+        l = p["l"]
+        if l in seen:
+            return None
+        seen.add(l)
+        nxt = None
+        for bi, si, dpl, src in body.defs.get(l, []):
+            if dpl.get("p"):
+                continue
+            if src[0] == "rv" and src[1]["k"] in ("ref", "rawptr"):
+                nxt = src[1]["pl"]
+            elif src[0] == "rv" and src[1]["k"] in ("use", "cast"):
+                nxt = op_place(src[1]["op"])
+            elif src[0] == "call":
+                f = op_const(src[1]["f"])
+                if f and re.search(r"Deref::deref$|Clone::clone$|AsRef::as_ref$", f.get("fn", "")):
+                    nxt = op_place(src[1]["args"][0])
+        p = nxt
+    return None
+
+
+def closures_in_variant(F, adt_path, variant):
+    """closure bodies stored into `adt_path::variant(..)` at construction sites: list of (ctor_body, closure_body)"""
+    out = []
+    tr = flow.Tracer(F, follow_callers=False, follow_fields=False, inline_calls=False)
+    for b in F.real_bodies():
+        if is_test_body(b):
+            continue
+        for bi, blk in enumerate(b.blocks):
+            if blk.get("cleanup"):
+                continue
+            for st in blk["st"]:
+                if st["s"] == "assign" and st["rv"]["k"] == "agg" and st["rv"].get("adt") == adt_path and st["rv"].get("variant") == variant:
+                    for op in st["rv"]["ops"]:
+                        for lf in tr.origins(b, op):
+                            if lf.kind == "closure":
+                                cb = F.bodies.get(lf.detail["def"])
+                                if cb is not None:
+                                    out.append((b, cb))
+    return out
+
+
+def block_line(body, bb):
+    blk = body.blocks[bb]
+    for st in blk["st"]:
+        if "sp" in st:
+            return st["sp"][0]
+    t = blk["term"]
+    if t and "sp" in t:
+        return t["sp"][0]
+    return body.lo
